@@ -240,6 +240,10 @@ def cycle_documents(rng, n):
             root = {"title": "Root", "type": "array", "items": {"$ref": "#/definitions/tail"}, "definitions": defs}
             label = "tail"
         docs.append((f"{label}-{length}", root, "cyclic", kinds))
+    # a cycle whose closing edge runs through a `definitions` container only (listed region C20-definitions-back-reference)
+    docs.append(("defs-back-root", {"type": "object", "title": "A", "properties": {"x": {"type": "integer"}}, "definitions": {"again": {"$ref": "#"}}}, "defs-back", ["definitions"]))
+    docs.append(("defs-back-nested", {"type": "object", "title": "A", "properties": {"x": {"$ref": "#/definitions/b"}},
+                                      "definitions": {"b": {"type": "object", "title": "B", "definitions": {"back": {"$ref": "#"}}}}}, "defs-back", ["definitions"]))
     # alias-only cycles (no schema between the references)
     for length in (2, 3, 5):
         defs = {f"a{i}": {"$ref": f"#/definitions/a{(i + 1) % length}"} for i in range(length)}
@@ -288,6 +292,8 @@ def check_cycles(rng, n, out, stats):
                     out.failures.append({"case": case, "what": f"acyclic references refused or crashed: {got}", "finding": None})
             elif got != "notImplemented":
                 finding = "C20-self-alias" if expect == "alias-self" and got == "other:json_ref_dict.ReferenceParseError" else None
+                if expect == "defs-back" and got == "ok":
+                    finding = "C20-definitions-back-reference"
                 out.failures.append({"case": case, "what": f"recursive references ({label}): main() ended with {got} instead of the not-implemented error", "finding": finding})
     finally:
         shutil.rmtree(tmp, ignore_errors=True)
